@@ -14,7 +14,7 @@ def shape_list(ctx):
     vg = gen.VGen()
     sh = gen.shape_tables(ctx.rng, vg)
     if ctx.quick():
-        return [sh[1], sh[3], sh[5]]
+        return [sh[1], sh[3], sh[5], sh[7]]
     return sh
 
 
@@ -29,7 +29,28 @@ def run_shape(ctx, b, name, cfg, entries, nprobe, comps=("none",)):
         bounds = shapes.pick_bounds(F, targets, rng)
         r, dot = TC.model_graph(ctx, wd, F, targets, bounds, True)
         if not r.ok:
-            raise core.Infra("MC_Reader does not hold on shape %s (specification problem, not a verdict on the code):\n%s" % (name, r.out[-3000:]))
+            # the model cannot read this file: judge the real reader on it with plain histories (no graph available);
+            # if the real reader is right the model is wrong (specification problem)
+            ctx.notes.append("MC_Reader rejected the structure of shape %s" % name)
+            lines = ["scratch " + wd, "r_init 0 %s 1 0" % path]
+            for bd in bounds:
+                lines += [gen.open_line(1, "r:0", bd), "it_drain 1"]
+                for tg in targets[:12]:
+                    if tg >= (bd[1] if bd[0] != "iter" else b""):
+                        lines += ["it_seek 1 %s" % shapes.hexs(tg), "it_next 1 2"]
+                lines.append("it_destroy 1")
+            lines.append("r_destroy 0")
+            evs, rc, err = core.run_drv(b, "\n".join(lines) + "\n", wd, name + "_" + comp + ".f")
+            recs = wrecs + [e for e in core.convert_events(evs) if e["e"] != "Reset"]
+            bad = core.validate_batch(ctx, recs, name + "_" + comp + "_fallback") if rc == 0 else []
+            if rc != 0:
+                core.report(ctx, "driver ended abnormally (rc=%s) on shape %s: %s" % (rc, name, err[-1500:]), {"kind": "script", "script": lines, "stderr": err[-4000:]})
+            elif not bad:
+                raise core.Infra("MC_Reader does not hold on shape %s although the real reader behaves correctly (specification problem):\n%s" % (name, r.out[-3000:]))
+            for ex, line in bad:
+                core.report(ctx, "reader iterator result not explained by the abstract cursor at trace line %d: %s" % (line, json.dumps(ex[line - 1])[:300]),
+                            {"kind": "trace", "trace": ex, "line": line, "shape": name})
+            continue
         ctx.add("states", r.distinct)
         ctx.add("transitions", r.generated)
         inits, edges, nn, ne = shapes.parse_dot(dot)
